@@ -230,6 +230,20 @@ def run(ctx):
                 if summ is None or any(summ[k] != rsum[k] for k in ("directories", "files", "processed", "modified", "replaced", "rewritten", "unsupported", "errors")):
                     fail("parallel-totals-differ", "%s: summary %s, serial %s" % (case, summ, rsum), case)
                 table.append({"case": case, "exit": rc, "summary": summ})
+    # ---- files matched by more than one selected handler (pyc + the opt-in pyc-zero-mtime; jar + zip regardless of extension)
+    for sel in (["--handler", "ar,jar,javadoc,gzip,pyc,pyc-zero-mtime,zip"], ["--ignore-extension", "--handler", "jar,zip"]):
+        rrc, rsum, rstate, _ = one_run(seed, 60, sel)
+        runs += 1
+        for n in (2, 7):
+            case = "-j%d %s" % (n, " ".join(sel))
+            rc, summ, state, out = one_run(seed, 60, ["-j%d" % n] + sel)
+            runs += 1
+            d = diff_canon(rstate, state)
+            if d:
+                fail("parallel-state-differs", "%s: the tree differs from the serial result: %s" % (case, "; ".join(d[:4])), case)
+            if rc != rrc or summ is None or rsum is None or any(summ[k] != rsum[k] for k in ("processed", "modified", "replaced", "rewritten", "unsupported", "errors")):
+                fail("parallel-totals-differ", "%s: exit %d summary %s; serial: exit %d summary %s" % (case, rc, summ, rrc, rsum), case)
+            table.append({"case": case, "exit": rc, "summary": summ})
     # ---- order, repetition and overlap of the path arguments: same final state; same totals when the arguments do not overlap
     arg_sets = [(("t/one", "t/two", "t/bulk"), True), (("t/one", "t/two", "t/does-not-exist", "t/bulk"), True), (("t/bulk", "t/two", "t/one"), True), (("t/two", "t/one", "t/bulk", "t/link-to-file.gz"), True),
                 (("t", "t"), False), (("t", "t/one"), False), (("t/one", "t", "t/two/deeper"), False), (("t/one/g.gz", "t/one", "t"), False)]
